@@ -159,9 +159,9 @@ def run(tier, seed):
         fn = d.DISTANCES[nm]
         dom = ax[nm][0]
         worst = None
-        for L in (1, 2, 3, 4, 5, 6, 8):
-            vs = M.vectors(rng, np, dom, L, 40 if thorough else 8)
-            pairs = [(rng.choice(vs), rng.choice(vs)) for _ in range(300 if thorough else 60)]
+        for L in (1, 2, 3, 4, 5, 6, 8, 129, 200):      # (long vectors: an image row, a bag of words - beyond any block size a kernel may sum by)
+            vs = M.vectors(rng, np, dom, L, (40 if thorough else 8) if L < 100 else 4)
+            pairs = [(rng.choice(vs), rng.choice(vs)) for _ in range((300 if thorough else 60) if L < 100 else (30 if thorough else 8))]
             pairs += [(v, v) for v in vs[:10]] + ([(v, [2 * a for a in v]) for v in vs[:6]] if dom != "simplex" else [])
             for x, y in pairs:
                 try:
@@ -198,7 +198,7 @@ def run(tier, seed):
     rep.cov["evaluations"] = ncmp
     rep.cov["distinct_nontrivial"] = len(nontrivial)
     rep.cov["argument_presentations"] = sorted(shapes)
-    rep.cov["rule"] = "47 identifiers x vector lengths 1..6 x (exact grid {0,.5,1,1.5,2,3} (+negatives for norm-type), zero-containing, random in-domain, identical and parallel pairs), arguments handed over as fresh float64 / read-only / integer-typed arrays, rows of a matrix, strided views and work buffers refilled in place; distinct_nontrivial counts (metric, length, x!=y) combinations compared; registry: 47 names + ~240 near-miss strings x 5 model classes"
+    rep.cov["rule"] = "47 identifiers x vector lengths 1..8, 129, 200 x (exact grid {0,.5,1,1.5,2,3} (+negatives for norm-type), zero-containing, random in-domain, identical and parallel pairs), arguments handed over as fresh float64 / read-only / integer-typed arrays, rows of a matrix, strided views and work buffers refilled in place; distinct_nontrivial counts (metric, length, x!=y) combinations compared; registry: 47 names + ~240 near-miss strings x 5 model classes"
     rep.assumptions = ["closed forms are held in Metrics.tla and instantiated by TLC per vector length; evaluated in float64 by lib/terms.py", "comparison under rtol 1e-9 x conditioning scale (atol 1e-6 for chord): sampling over the reals, not model checking", "the reference forms are the library's definitions at the pinned commit (Cha 2007 up to documented constant factors)"]
     return rep.finish()
 
